@@ -155,6 +155,32 @@ def _check_loop_carried(itv, before, env, targets):
         raise Unsupported(f"loop-carried state not covered by the loop invariant of the contract: {sorted(bad)} (changed by the generic iteration of a cut loop)")
 
 
+class _Poison:
+    """value of a local that a contract declares a TEMPORARY of a cut loop (written before it is read in every iteration): reading it is outside the contract"""
+
+    def __init__(self, name):
+        object.__setattr__(self, "_n", name)
+
+    def _boom(self, *a, **k):
+        raise Unsupported(f"local variable '{self._n}' was declared a write-before-read temporary of a cut loop but is read before being written")
+
+    __getattr__ = __call__ = __iter__ = __len__ = __bool__ = __add__ = __radd__ = __mul__ = __rmul__ = __getitem__ = __eq__ = __hash__ = _boom
+
+
+def _poison_temps(itv, env):
+    temps = set(getattr(itv, "temps", ()) or ())
+    for a in (itv._atoms() if isinstance(itv, GSeq) else []):
+        temps |= set(getattr(a.proto, "temps", ()) or ())
+    for t in temps:
+        e = env
+        while e is not None:
+            if t in e.vars:
+                e.vars[t] = _Poison(t)
+                break
+            e = e.parent
+    return temps
+
+
 def _target_names(t):
     if isinstance(t, ast.Name):
         return {t.id}
@@ -168,6 +194,7 @@ def _target_names(t):
 
 class GhostIterable:
     """protocol object standing for a collection of unknown size in a `for` loop (see Interp.s_For); contracts subclass it.
+    `temps`: locals declared write-before-read temporaries of the loop body (poisoned at the start of the generic iteration: a read before a write is Unsupported).
     `managed`: names of the local variables of the function under contract whose change across iterations is described by the protocol (havoc + step); any other
     pre-existing local that the generic iteration rebinds or mutates makes the cut unsound and is reported as Unsupported ('*' = everything is managed)"""
 
@@ -228,7 +255,7 @@ class GSeq(GhostIterable):
                     L = int(c.concrete.get(f"len({self.name})", 1))
                 self._length = L
             return self._length
-        if self.kind in ("reversed", "copy"):
+        if self.kind in ("reversed", "copy", "shallow"):
             return self.src.length()
         if self.kind == "concat":
             return self.src.length() + self.src2.length()
@@ -269,7 +296,10 @@ class GSeq(GhostIterable):
         return GSeq("copy", src=self)
 
     def __copy__(self):
-        raise Unsupported("shallow copy of a ghost sequence")
+        return GSeq("shallow", src=self)
+
+    def copy(self):
+        return GSeq("shallow", src=self)
 
     def nonempty(self):
         if self.kind == "comp":
@@ -309,7 +339,7 @@ class GSeq(GhostIterable):
         k = self.kind
         if k == "atom":
             return self.elem
-        if k in ("reversed", "repeat"):
+        if k in ("reversed", "repeat", "shallow"):
             return self.src._element()
         if k == "copy":
             import copy as _c
@@ -1014,6 +1044,7 @@ class Interp:
                 self.exec_block(s.orelse, env)      # empty sequence: the loop body does not run, the entry state is the exit state
                 return
             itv.havoc(self, env)
+            temps = _poison_temps(itv, env)
             frame = _frame_state(env)
             self.assign(s.target, itv.element(), env)
             broke = False
@@ -1023,7 +1054,7 @@ class Interp:
                 broke = True
             except _Continue:
                 pass
-            _check_loop_carried(itv, frame, env, _target_names(s.target))
+            _check_loop_carried(itv, frame, env, _target_names(s.target) | temps)
             itv.step(self, env, broke)
             itv.exit(self, env)
             if not broke:
@@ -1389,11 +1420,12 @@ class Interp:
         if not itv.nonempty():
             return GSeq("comp", src=itv, kept=False, image=None, n="empty"), itv
         itv.havoc(self, en)
+        temps = _poison_temps(itv, en)
         frame = _frame_state(en)
         self.assign(gens[0].target, itv.element(), en)
         kept = all(truth(self.eval(c, en)) for c in gens[0].ifs)
         image = self.eval(e.elt, en) if kept else None
-        _check_loop_carried(itv, frame, en, _target_names(gens[0].target))
+        _check_loop_carried(itv, frame, en, _target_names(gens[0].target) | temps)
         itv.step(self, en, False)
         itv.exit(self, en)
         return GSeq("comp", src=itv, kept=kept, image=image), itv
@@ -1773,6 +1805,10 @@ def _m_filter(interp, f, args, kw):
 
 @model(list, tuple, set, frozenset, doc="container constructors iterate through interpreted __iter__")
 def _m_list(interp, f, args, kw):
+    if len(args) == 1 and isinstance(args[0], GSeq):
+        if f is list:
+            return GSeq("shallow", src=args[0])     # list(xs): a new list with the same elements in the same order
+        raise Unsupported(f"{f.__name__}() of a ghost sequence")
     if len(args) == 1:
         items = list(interp.iterate(args[0]))
         if f in (set, frozenset) and any(isinstance(x, Poly) and not x.is_const() for x in items):
